@@ -181,6 +181,7 @@ def wf_map(m):
 
 
 CLASS_FILE = {
+    "AbstractDissimilarity": "pygamma_agreement/dissimilarity.py",
     "Continuum": "pygamma_agreement/continuum.py", "Unit": "pygamma_agreement/continuum.py",
     "GammaResults": "pygamma_agreement/continuum.py",
     "UnitaryAlignment": "pygamma_agreement/alignment.py", "Alignment": "pygamma_agreement/alignment.py",
@@ -238,7 +239,9 @@ class WinV(Val):
         return ("win",)
 
 
-ALLOCATORS = {"Continuum": alloc_continuum}
+ALLOCATORS = {"Continuum": alloc_continuum,
+              "SetStr": lambda st, tag: alloc(st, fresh_set(tag, R)),
+              "SetUnit": lambda st, tag: alloc(st, fresh_set(tag, UnitDT))}
 
 
 # ------------------------------------------------------------------------------------------ engine extensions
@@ -320,6 +323,12 @@ def method_call(self, name, e, st, spec):
     except EngineError:
         return NotImplemented
     m = f.attr
+    if isinstance(recv, Opt) and isinstance(recv.val, (Ref, Handle)):
+        # Optional[object]: calling a method on None would raise AttributeError
+        if not spec:
+            self.oblige(st, z3.Not(recv.isnone), f"not-None@{e.lineno}:{e.col_offset}", "exception-freedom", e.lineno,
+                        ast.unparse(f.value) + " is not None")
+        recv = recv.val
     s = set_of(self, st, recv)
     if s is not None:
         return set_method(self, recv, s, m, e, st, spec)
@@ -467,6 +476,15 @@ def list_method(self, target_node, lst, m, e, st, spec):
 
 
 def coerce_elem(self, template, v):
+    """adapt a value to the element shape of a list (T -> Optional[T], int -> float, component-wise in tuples)"""
+    if isinstance(template, Opt) and not isinstance(v, Opt):
+        if isinstance(v, NoneV):
+            return Opt(z3.BoolVal(True), V.fresh_like(template.val, "none"))
+        return Opt(z3.BoolVal(False), coerce_elem(self, template.val, v))
+    if isinstance(template, Tup) and isinstance(v, Tup) and len(template.items) == len(v.items):
+        return Tup([coerce_elem(self, t, x) for t, x in zip(template.items, v.items)])
+    if is_z3(template) and is_z3(v) and template.sort() == R and v.sort() == I:
+        return z3.ToReal(v)
     return v
 
 
@@ -621,6 +639,8 @@ _prev_eq = Engine.eq_other
 
 
 def eq_other(self, a, b, st, spec):
+    if isinstance(a, SList) and isinstance(b, SList) and spec:
+        return list_eq(a, b)
     if isinstance(a, UnitV) and isinstance(b, UnitV):
         return a.term == b.term
     if isinstance(a, UnitV) and isinstance(b, (Opt, NoneV)) or isinstance(b, UnitV) and isinstance(a, (Opt, NoneV)):
@@ -764,12 +784,14 @@ def spec_call(self, name, e, st):
         v = self.ev(e.args[0], st, True)
         s = set_of(self, st, v)
         return z3.And(*wf_set(s["mem"], s["n"], s["seq"], s["idx"]))
-    if name in ("members", "size", "seqof"):
+    if name in ("members", "size", "seqof", "idxof"):
         v = self.ev(e.args[0], st, True)
+        if isinstance(v, Opt):
+            v = v.val
         s = set_of(self, st, v)
         if s is None:
             raise EngineError(f"{name}() of a non-set")
-        return {"members": s["mem"], "size": s["n"], "seqof": s["seq"]}[name]
+        return {"members": s["mem"], "size": s["n"], "seqof": s["seq"], "idxof": s["idx"]}[name]
     if name == "fresh_obj":
         v = self.ev(e.args[0], st, True)
         return z3.BoolVal(isinstance(v, Ref) and v.oid not in (st.oldheap or {}))
@@ -899,6 +921,8 @@ def alloc_obj(self, st, t, tag):
     for fname, ft in t.fields.items():
         if isinstance(ft, ObjT):
             rec[fname] = alloc_obj(self, st, ft, f"{tag}.{fname}")
+        elif isinstance(ft, OptObjT):
+            rec[fname] = Opt(z3.Bool(f"{tag}.{fname}.isnone"), alloc_obj(self, st, ft.inner, f"{tag}.{fname}"))
         else:
             rec[fname] = ft.fresh(f"{tag}.{fname}")
             st.assume(*self.type_facts(rec[fname]))
@@ -911,6 +935,8 @@ Engine.alloc_params = alloc_params
 def make_param(self, name, t, st):
     if isinstance(t, ObjT):
         return alloc_obj(self, st, t, name)
+    if isinstance(t, OptObjT):
+        return Opt(z3.Bool(f"{name}.isnone"), alloc_obj(self, st, t.inner, name))
     return t.fresh(name)
 
 
@@ -1049,10 +1075,22 @@ Engine.frame_obligations = frame_obligations
 
 
 # ---- constructors and copies
+class OptObjT(T):
+    """Optional reference to a heap object of a known class"""
+
+    def __init__(self, inner):
+        self.inner = inner
+
+
 def ctor_model(self, e, st, spec):
     name = ast.unparse(e.func)
     if spec:
         return NotImplemented
+    if name.startswith("logging.") or name == "print":
+        for a in e.args:
+            if not isinstance(a, (ast.JoinedStr, ast.Constant)):
+                self.ev(a, st, spec)
+        return NONE
     if name in ("SortedSet", "SortedDict") and not e.args and not e.keywords:
         self.used_models.add(TRUSTED_SC)
         return alloc(st, dict(empty_map()) if name == "SortedDict" else {"$cls": "SetEmpty"})
@@ -1081,7 +1119,13 @@ def ctor_model(self, e, st, spec):
     cls = name
     q = self.method_contract(cls, "__init__") if cls in CLASS_FILE else None
     if q is not None:
-        obj = ALLOCATORS[cls](st, V.fresh_name("new_" + cls))
+        callee = self.registry[q]
+        if callee.value_self:
+            blank = self.make_param(V.fresh_name("blank_" + cls), callee.params["self"], st)
+            self.call_contract(q, e, st, recv=blank)
+            return self.last_new_self
+        t = callee.params["self"]
+        obj = alloc_obj(self, st, t, V.fresh_name("new_" + cls))
         self.call_contract(q, e, st, recv=obj)
         return obj
     return NotImplemented
@@ -1146,3 +1190,79 @@ Engine.store_sub_other = store_sub_other2
 
 
 Engine.wrap_bound = lambda self, x: wrap(x)
+
+
+def coerce_arg(self, t, v, st):
+    from .contract import OptT, RealT, ListOf
+    if isinstance(t, OptObjT):
+        if isinstance(v, Ref):
+            return Opt(z3.BoolVal(False), v)
+        if isinstance(v, NoneV):
+            return Opt(z3.BoolVal(True), NONE)
+        return v
+    if isinstance(t, OptT):
+        if isinstance(v, Opt):
+            return v
+        tmpl = t.elem.fresh(V.fresh_name("dflt"))
+        if isinstance(v, NoneV):
+            return Opt(z3.BoolVal(True), tmpl)
+        return Opt(z3.BoolVal(False), coerce_elem(self, tmpl, v))
+    if isinstance(t, RealT) and is_int(v):
+        return z3.ToReal(v)
+    return v
+
+
+Engine.coerce_arg = coerce_arg
+
+
+def field_path(self, path, env, heap):
+    parts = path.split(".")
+    v = env[parts[0]]
+    for p in parts[1:-1]:
+        v = heap[v.oid][p]
+    return v, parts[-1]
+
+
+def apply_binds(self, callee, sub, cst, st):
+    """at a call site: the fields the callee binds hold exactly the declared values"""
+    for path, text in callee.binds.items():
+        obj, fld = field_path(self, path, cst.env, st.heap)
+        val = sub.spec(Clause(text), cst)
+        if isinstance(obj, Ref):
+            st.heap[obj.oid][fld] = val
+        elif isinstance(obj, Rec):
+            cst.env[path.split(".")[0]] = obj.with_field(fld, val)
+            self.last_new_self = cst.env[path.split(".")[0]]
+        else:
+            raise EngineError(f"binds: {path}")
+
+
+Engine.apply_binds = apply_binds
+
+_prev_at_return = Engine.at_return
+
+
+def at_return(self, st, val, line):
+    # bound fields are obligations of the callee's own body
+    for path, text in self.c.binds.items():
+        obj, fld = field_path(self, path, st.env, st.heap)
+        cur = st.heap[obj.oid][fld] if isinstance(obj, Ref) else obj.fields[fld]
+        want = self.spec(Clause(text), st)
+        try:
+            g = self.eq(cur, want, st, True) if not (isinstance(cur, SList) or isinstance(want, SList)) else list_eq(cur, want)
+        except EngineError:
+            g = z3.BoolVal(cur is want)
+        self.oblige(st, g, f"binds/{path}@{line}", "post", line, f"{path} == {text}", None)
+    return _prev_at_return(self, st, val, line)
+
+
+def list_eq(a, b):
+    if not (isinstance(a, SList) and isinstance(b, SList)):
+        return z3.BoolVal(False)
+    ca, cb = a.comps(), b.comps()
+    if len(ca) != len(cb):
+        return z3.BoolVal(False)
+    return z3.And(*[x == y for x, y in zip(ca, cb)])
+
+
+Engine.at_return = at_return
